@@ -17,6 +17,7 @@ Notation table := (table K).
 Notation omap := (list (K * Z)).
 Notation chains_ok := (chains_ok K hash).
 Notation abs := (abs K).
+Notation slots_nodup := (slots_nodup K).
 Local Notation step := (HashModel.step keqb hash).
 Local Notation run := (HashModel.run keqb hash).
 Local Notation insert := (HashModel.insert keqb hash).
@@ -239,59 +240,83 @@ Proof. intros H1 H2. apply Forall_upd; auto. Qed.
 Lemma new_default_ok x : chains_ok (new_table x default_capacity).
 Proof. apply new_table_ok. unfold default_capacity, Gen_Hash.gen_default_capacity. lia. Qed.
 
-Lemma step_refines kd st o :
+Lemma weaken (A B C : Prop) : A /\ B -> A /\ (C -> B).
+Proof. tauto. Qed.
+
+(* The step of the model commutes with the step of the reference.  Every operation but the backward traversal needs
+   only the chain/order invariant; the backward traversal identifies items by the pointers it follows and needs,
+   in addition, that no two live items of a table share a slot (part of the node-recycling invariant pool_ok). *)
+Lemma step_refines_gen kd st o :
   state_ok st ->
   state_ok (fst (step kd st o)) /\
-  spec_step keqb kd (abs_st st) o = (abs_st (fst (step kd st o)), snd (step kd st o)).
+  (Forall slots_nodup st ->
+   spec_step keqb kd (abs_st st) o = (abs_st (fst (step kd st o)), snd (step kd st o))).
 Proof.
   intros Hst. unfold HashModel.step, spec_step.
   destruct (op_allowed kd o) eqn:Eal; cbn [negb]; [|cbn [fst snd]; auto].
-  destruct o as [x c|x|x k|x k|x pos k v|x k v|x k v|x k|x r|x r|x|x|x|x y|x|x|x y|x y|x y|x y|x y|x k v].
-  - (* ONew *) destruct (c <? 0) eqn:Ec; [cbn [fst snd]; auto|].
+  destruct o as [x c|x|x k|x k|x pos k v|x k v|x k v|x k|x r|x r|x|x|x|x y|x|x|x y|x y|x y|x y|x y|x k v|x|x].
+  - apply weaken. (* ONew *) destruct (c <? 0) eqn:Ec; [cbn [fst snd]; auto|].
     apply with_var_refines; auto. apply c_new. apply Z.ltb_ge. exact Ec.
-  - apply with_var_refines; auto. apply c_newd.
-  - apply with_var_refines; auto. apply c_find.
-  - apply with_var_refines; auto. apply c_contains.
-  - apply with_var_refines; auto. apply c_insert.
-  - apply with_var_refines; auto. apply c_append.
-  - apply with_var_refines; auto. apply c_prepend.
-  - apply with_var_refines; auto. apply c_remove_key.
-  - apply with_var_refines; auto. apply c_remove_at.
-  - apply with_var_refines; auto. apply c_remove_val.
-  - apply with_var_refines; auto. apply c_remove_front.
-  - apply with_var_refines; auto. apply c_remove_back.
-  - apply with_var_refines; auto. apply c_clear.
-  - (* OSwap: each side takes over the other's fields and re-anchors the list on its own sentinel; that this
+  - apply weaken. apply with_var_refines; auto. apply c_newd.
+  - apply weaken. apply with_var_refines; auto. apply c_find.
+  - apply weaken. apply with_var_refines; auto. apply c_contains.
+  - apply weaken. apply with_var_refines; auto. apply c_insert.
+  - apply weaken. apply with_var_refines; auto. apply c_append.
+  - apply weaken. apply with_var_refines; auto. apply c_prepend.
+  - apply weaken. apply with_var_refines; auto. apply c_remove_key.
+  - apply weaken. apply with_var_refines; auto. apply c_remove_at.
+  - apply weaken. apply with_var_refines; auto. apply c_remove_val.
+  - apply weaken. apply with_var_refines; auto. apply c_remove_front.
+  - apply weaken. apply with_var_refines; auto. apply c_remove_back.
+  - apply weaken. apply with_var_refines; auto. apply c_clear.
+  - apply weaken. (* OSwap: each side takes over the other's fields and re-anchors the list on its own sentinel; that this
        amounts to exchanging the two sequences needs the invariant (ok_endprev): see take_refines *)
     apply with_2_refines; auto. intros a b Ea Eb Ha Hb. cbn [fst snd].
     destruct (take_refines K hash x b Hb) as [Hb1 [Hb2 _]]. destruct (take_refines K hash y a Ha) as [Ha1 [Ha2 _]].
     split.
     + apply state_ok_upd; auto. apply state_ok_upd; auto.
     + rewrite !abs_st_upd, Ha2, Hb2. reflexivity.
-  - apply with_var_refines; auto. apply c_front.
-  - apply with_var_refines; auto. apply c_back.
-  - (* OCopy *) assert (Hkd : kd <> KPool) by (intros ->; discriminate).
+  - apply weaken. apply with_var_refines; auto. apply c_front.
+  - apply weaken. apply with_var_refines; auto. apply c_back.
+  - apply weaken. (* OCopy *) assert (Hkd : kd <> KPool) by (intros ->; discriminate).
     apply with_2_refines; auto. intros a b Ea Eb Ha Hb. cbn [fst snd].
     destruct (copy_refines K keqb hash keqb_spec kd (new_table x default_capacity) b Hkd (new_default_ok x) eq_refl Hb)
       as [H1 H2].
     split; [apply state_ok_upd; auto|]. rewrite abs_st_upd, H2. reflexivity.
-  - (* OAssign *) assert (Hkd : kd <> KPool) by (intros ->; discriminate).
+  - apply weaken. (* OAssign *) assert (Hkd : kd <> KPool) by (intros ->; discriminate).
     apply with_2_refines; auto. intros a b Ea Eb Ha Hb.
     destruct (Nat.eqb_spec x y) as [Exy|Exy]; cbn [fst snd].
     + split; auto. subst y. f_equal. apply upd_same. unfold abs_st. rewrite nth_error_map', Eb. reflexivity.
     + destruct (clear_refines K hash x a Ha) as [Hc1 Hc2].
       destruct (copy_refines K keqb hash keqb_spec kd (clear x a) b Hkd Hc1 Hc2 Hb) as [H1 H2].
       split; [apply state_ok_upd; auto|]. rewrite abs_st_upd, H2. reflexivity.
-  - (* OEq *) apply with_2_refines; auto. intros a b Ea Eb Ha Hb. cbn [fst snd]. split; auto.
+  - apply weaken. (* OEq *) apply with_2_refines; auto. intros a b Ea Eb Ha Hb. cbn [fst snd]. split; auto.
     rewrite (eq_refines K keqb hash kd a b Ha Hb). reflexivity.
-  - (* OAppendAll *) apply with_2_refines; auto. intros a b Ea Eb Ha Hb. cbn [fst snd].
+  - apply weaken. (* OAppendAll *) apply with_2_refines; auto. intros a b Ea Eb Ha Hb. cbn [fst snd].
     destruct (append_all_refines K keqb hash keqb_spec kd (order b) a Ha) as [H1 H2].
     split; [apply state_ok_upd; auto|]. rewrite abs_st_upd, H2. reflexivity.
-  - (* ORemoveAll *) apply with_2_refines; auto. intros a b Ea Eb Ha Hb. cbn [fst snd].
+  - apply weaken. (* ORemoveAll *) apply with_2_refines; auto. intros a b Ea Eb Ha Hb. cbn [fst snd].
     destruct (remove_all_refines K keqb hash keqb_spec (order b) a Ha) as [H1 H2].
     split; [apply state_ok_upd; auto|]. rewrite abs_st_upd, H2. reflexivity.
-  - apply with_var_refines; auto. apply c_setval.
+  - apply weaken. apply with_var_refines; auto. apply c_setval.
+  - (* OIterFwd *) apply weaken. apply with_var_refines; auto. intros t Hok. cbn [fst snd]. split; auto.
+  - (* OIterBack *) unfold with_var, s_with, abs_st. rewrite nth_error_map'.
+    destruct (nth_error st x) as [t|] eqn:E; cbn [option_map fst snd]; [|split; auto].
+    assert (Hok : chains_ok t) by (eapply state_ok_nth; eauto).
+    split; [apply Forall_upd; auto|]. intros Hnd.
+    assert (Hn : slots_nodup t) by (rewrite Forall_forall in Hnd; apply Hnd; eapply nth_error_In; exact E).
+    rewrite (iter_back_rev K t (ok_endprev K hash t Hok) Hn). rewrite map_upd. reflexivity.
 Qed.
+
+Lemma step_refines kd st o :
+  state_ok st -> Forall slots_nodup st ->
+  state_ok (fst (step kd st o)) /\
+  spec_step keqb kd (abs_st st) o = (abs_st (fst (step kd st o)), snd (step kd st o)).
+Proof. intros H1 H2. destruct (step_refines_gen kd st o H1) as [A B]. split; auto. Qed.
+
+Lemma step_ok kd st o : state_ok st -> state_ok (fst (step kd st o)).
+Proof. intros H. apply (step_refines_gen kd st o H). Qed.
+
 
 (* ---- whole histories -------------------------------------------------------------------------- *)
 Lemma obs_st_refines st : state_ok st -> map (m_obs (K:=K)) st = map (s_obs (K:=K)) (abs_st st).
@@ -300,21 +325,13 @@ Proof.
   apply (obs_refines K hash). revert t Hi. apply Forall_forall. exact Hst.
 Qed.
 
-Lemma run_refines kd ops : forall st, state_ok st -> run kd st ops = spec_run keqb kd (abs_st st) ops.
-Proof.
-  induction ops as [|o rest IH]; intros st Hst; cbn [HashModel.run spec_run]; auto.
-  destruct (step_refines kd st o Hst) as [H1 H2]. rewrite H2.
-  destruct (step kd st o) as [st' r]. cbn [fst snd] in *.
-  rewrite (obs_st_refines st' H1). f_equal. apply IH. exact H1.
-Qed.
-
 Fixpoint states (kd : kind) (st : list table) (ops : list (op K)) : list table :=
   match ops with [] => st | o :: rest => states kd (fst (step kd st o)) rest end.
 
 Lemma states_ok kd ops : forall st, state_ok st -> state_ok (states kd st ops).
 Proof.
   induction ops as [|o rest IH]; intros st Hst; cbn [states]; auto.
-  apply IH. apply (step_refines kd st o Hst).
+  apply IH. apply step_ok. exact Hst.
 Qed.
 
 Definition start (caps : list Z) : list table := init (map ctor_cap caps).
@@ -334,11 +351,6 @@ Proof. induction cs as [|c rest IH]; intros i; cbn [init_from map abs_st]; [refl
 
 Lemma abs_start caps : abs_st (start caps) = map (fun _ => []) caps.
 Proof. unfold start, init. rewrite abs_init_from. rewrite map_map. reflexivity. Qed.
-
-Theorem refines_ordered_map kd caps ops :
-  Forall (fun c => 0 <= c) caps ->
-  run kd (start caps) ops = spec_run keqb kd (map (fun _ => []) caps) ops.
-Proof. intros H. rewrite <- abs_start. apply run_refines. apply start_ok. exact H. Qed.
 
 Theorem invariant_reachable kd caps ops :
   Forall (fun c => 0 <= c) caps -> state_ok (states kd (start caps) ops).
